@@ -190,6 +190,37 @@ impl C09 {
             }
             _ => None,
         };
+        // constants that mention other constants (read through typeof): when such a constant becomes a module's
+        // `export default <expression>`, the identifiers inside the expression belong to the exporting module
+        let mut raw_entry_extra = String::new();
+        if s.chance(1, 3) {
+            let unit = *s.pick(&["ms", "s", "a-b"]);
+            rendered.decls.push(format!("const CUnitQ = \"{}\" as const;", unit));
+            match s.below(3) {
+                0 => {
+                    rendered.decls.push("const CObjQ = { max: 10, unit: CUnitQ } as const;".into());
+                    roots.push(("PCq".into(), D::obj(vec![("max", D::NumLit("10".into()), false), ("unit", D::StrLit(unit.into()), false)])));
+                }
+                1 => {
+                    rendered.decls.push("const CObjQ = [CUnitQ, 1] as const;".into());
+                    roots.push(("PCq".into(), D::Tuple(vec![D::StrLit(unit.into()), D::NumLit("1".into())], None)));
+                }
+                _ => {
+                    rendered.decls.push("const CObjQ = { inner: { u: CUnitQ }, n: 1 } as const;".into());
+                    roots.push(("PCq".into(), D::obj(vec![("inner", D::obj(vec![("u", D::StrLit(unit.into()), false)]), false), ("n", D::NumLit("1".into()), false)])));
+                }
+            }
+            rendered.roots.push("typeof CObjQ".into());
+            // ... and the entry file declares a *type* named like the constant (values and types live in separate
+            // name spaces): in type position the name is the local type, whether or not the constant is imported
+            if s.chance(1, 2) {
+                raw_entry_extra = "type CUnitQ = \"zz-local\" | 1;\ntype LocalQ = CUnitQ;\n".to_string();
+                roots.push(("PUq".into(), D::StrLit(unit.into())));
+                rendered.roots.push("typeof CUnitQ".into());
+                roots.push(("PLq".into(), D::Union(vec![D::StrLit("zz-local".into()), D::NumLit("1".into())])));
+                rendered.roots.push("LocalQ".into());
+            }
+        }
         let build = {
             let mut out = String::from("export const Parsers = parse.buildParsers<{\n");
             for ((name, _), t) in roots.iter().zip(rendered.roots.iter()) {
@@ -198,7 +229,7 @@ impl C09 {
             out.push_str("}>();\n");
             out
         };
-        let single = format!("{}\n{}", rendered.decls.join("\n"), build);
+        let single = format!("{}\n{}{}", rendered.decls.join("\n"), raw_entry_extra, build);
         let mut values = vec![];
         for (_, d) in &roots {
             values.push(gen_values(&env, d, s, Mode::Open, 7, 6, 4));
@@ -306,7 +337,7 @@ impl C09 {
                 continue;
             }
             let f = file_of[j];
-            let form = s.below(5);
+            let form = if d.name == "CObjQ" && s.chance(1, 2) { 4 } else { s.below(5) };
             let ln = local_name[j].clone();
             match form {
                 0 | 1 => {
@@ -325,6 +356,26 @@ impl C09 {
                     export_lines[f].push(format!("export {{ {} as {} }};", ln, ext));
                     exported_as.insert(d.name.clone(), (ext, false));
                     styles.push("export_renamed".into());
+                }
+                _ if d.kind == "const" && !default_taken[f] && d.name == "CObjQ" && !(f == 0) && !decls.iter().enumerate().any(|(i, o)| i != j && file_of[i] == f && o.refs.contains(&d.name)) => {
+                    // the constant's initialiser becomes the module's default export (no local binding is left, so
+                    // nothing else in this file may refer to it)
+                    let clean = decl_texts[j].clone();
+                    match clean.find('=') {
+                        Some(eq) => {
+                            let init = clean[eq + 1..].trim().trim_end_matches(';').trim().to_string();
+                            default_taken[f] = true;
+                            // (kept in the declaration's place, so that renamed imports are rewritten inside it too)
+                            decl_texts[j] = format!("export default {};", init);
+                            exported_as.insert(d.name.clone(), ("default".into(), true));
+                            styles.push("export_default_expression".into());
+                        }
+                        None => {
+                            decl_texts[j] = export_inline(&decl_texts[j], d.kind);
+                            exported_as.insert(d.name.clone(), (ln.clone(), false));
+                            styles.push("export_inline".into());
+                        }
+                    }
                 }
                 _ => {
                     if !default_taken[f] && d.kind != "enum" && d.kind != "const" {
@@ -534,6 +585,7 @@ impl C09 {
                 text.push('\n');
             }
             if f == 0 {
+                text.push_str(&raw_entry_extra);
                 text.push_str(&build_text);
             }
             out_files.push((file_names[f].clone(), text));
